@@ -5,6 +5,7 @@
  * obligation and C18's JIT-vs-emulation leg). */
 #include "pgen.h"
 #include "vrun.h"
+#include <fenv.h>
 
 typedef struct {
   int shard, nshards;
@@ -18,6 +19,7 @@ typedef struct {
   const char *prop;		/* key prefix */
   int featsets;			/* expand each target into every subset of its feature bits (C11) */
   int lite;			/* reduced input sweep per (program, flag vector) */
+  int rounding;			/* float programs also under the caller's non-default rounding directions (C18) */
   long only_flags;
 } Opt;
 
@@ -133,6 +135,13 @@ static int min_var_size (OrcProgram * p)
   int i, s = 8;
   for (i = 0; i < ORC_N_VARIABLES; i++) if (p->vars[i].size && p->vars[i].size < s && p->vars[i].vartype != ORC_VAR_TYPE_CONST && p->vars[i].vartype != ORC_VAR_TYPE_PARAM) s = p->vars[i].size;
   return s;
+}
+
+static int program_has_float (OrcProgram * p)
+{
+  int i;
+  for (i = 0; i < p->n_insns; i++) if (op_is_float (p->insns[i].opcode)) return 1;
+  return 0;
 }
 
 static int declared_align (OrcProgram * p, int var)
@@ -292,6 +301,27 @@ static void explore_program (OrcProgram * p, const char *text, long pidx)
         vr_arena_free (&R);
       }
     }
+    /* 4. float programs: the caller's rounding direction.  Emulation and generated C round the way the calling thread
+     * has set with fesetround(); native code has to do the same (it adds flush-to-zero to the caller's MXCSR, it does
+     * not replace it).  Value table run under the three non-default directions, native vs emulation. */
+    if (!bad && opt.rounding && p->constant_n <= 0 && program_has_float (p)) {
+      static const int dirs[] = { FE_UPWARD, FE_DOWNWARD, FE_TOWARDZERO };
+      int di;
+      for (di = 0; di < 3 && !bad; di++) {
+        memset (&c, 0, sizeof (c));
+        c.m = 1;
+        c.n = 3000 + 5;
+        c.pchoice = di;
+        c.vbase = 0;
+        fesetround (dirs[di]);
+        ref_run (p, &c, &R, &exr);
+        set_offsets (p, &c, 0, 0);
+        st_pt++;
+        if (one_run (p, t, &c, &R, &exr, text)) bad = 1;
+        fesetround (FE_TONEAREST);
+        vr_arena_free (&R);
+      }
+    }
     if (nsamples < 2 && (pidx % 997) == 1 && !bad) {
       nsamples++;
       v_out ("{\"t\":\"sample\",\"program\":\"%s\",\"target\":\"%s\",\"n_range\":[0,%d],\"lead_offsets\":\"0..31\",\"value_table\":\"all tuples of per-size alphabets\"}",
@@ -427,6 +457,7 @@ int main (int argc, char **argv)
   opt.prop = v_arg (argc, argv, "--prop", "C01");
   opt.featsets = v_argi (argc, argv, "--featsets", 0);
   opt.lite = v_argi (argc, argv, "--lite", 0);
+  opt.rounding = v_argi (argc, argv, "--rounding", 0);
   opt.only_flags = v_argi (argc, argv, "--only-flags", -1);
   vr_float_mode = !strcmp (v_arg (argc, argv, "--classes", "int"), "float");
   v_finite_only = vr_float_mode;
